@@ -238,9 +238,18 @@ func runC19(c *Ctx) *Replay {
 	}
 	sc := Scenario{Kind: "cli", Prog: p.ID, Files: map[string]string{}, Extra: map[string]string{}}
 	class := []string{"valid", "valid", "syntax-error", "validation-error", "import", "import-missing", "import-paths", "symlinks", "degenerate"}[r.Intn(9)]
+	if r.Chance(1, 24) {
+		class = "large"
+	}
 	text := valid
 	pre := "" // directory of the files the tool is pointed at
 	switch class {
+	case "large":
+		// a LARGE schema file: remarks bring it to about 64 KiB, 1 MiB or 2 MiB, and
+		// definitions follow BEHIND the padding (whatever a tool does with the first so many
+		// bytes of a file, the rest is part of the schema too)
+		n := []int{1 << 16, 1 << 20, 1 << 20, 1 << 21}[r.Intn(4)] + r.Range(-70, 70)
+		text = padSchema(valid, n) + "struct AfterThePadding { int32 a; }\n// and a closing remark\nmessage LastOfAll { 1 -> string s; }\n"
 	case "degenerate":
 		// files with nothing (or next to nothing) in them, a byte-order mark, NUL bytes
 		text = []string{"", "\n", "// only a remark\n", "/* only a block remark */", "   \n\t\n", "\xef\xbb\xbf" + valid, "\r\n", "const int32 kOnly = 1;", valid + "\x00", "//"}[r.Intn(10)]
@@ -393,7 +402,27 @@ func runC19(c *Ctx) *Replay {
 		c.Sample(map[string]interface{}{"tool": sc.Extra["tool"], "args": sc.Args, "input_class": class, "fault_free_exit": bl.Exit, "operations": ops})
 	}
 	errnoMenu := []string{"EACCES", "ENOENT", "EMFILE", "EIO"}
-	for _, op := range bl.Ops {
+	// a tool that moves a large file in small pieces makes hundreds of calls: the first and
+	// the last ones and a sample in between are failed (every one for ordinary runs)
+	sample := func(ops []cliOp, max int) []cliOp {
+		if len(ops) <= max {
+			return ops
+		}
+		third := max / 3
+		out := append([]cliOp{}, ops[:third]...)
+		mid := ops[third : len(ops)-third]
+		for _, k := range r.Perm(len(mid))[:max-2*third] {
+			out = append(out, mid[k])
+		}
+		out = append(out, ops[len(ops)-third:]...)
+		sort.Slice(out, func(i, j int) bool { return out[i].Index < out[j].Index })
+		return out
+	}
+	maxFirst, maxSecond := 60, 24
+	if class == "large" {
+		maxFirst, maxSecond = 24, 3 // every run moves megabytes
+	}
+	for _, op := range sample(bl.Ops, maxFirst) {
 		var kinds []FileOp
 		switch op.Op {
 		case "write", "writefile":
@@ -427,10 +456,13 @@ func runC19(c *Ctx) *Replay {
 			if first == nil || strings.HasPrefix(k.Kind, "crash") {
 				continue
 			}
+			var later []cliOp
 			for _, op2 := range first.Ops {
-				if op2.Index <= op.Index || op2.Op == "exit" {
-					continue
+				if op2.Index > op.Index && op2.Op != "exit" {
+					later = append(later, op2)
 				}
+			}
+			for _, op2 := range sample(later, maxSecond) {
 				var kinds2 []FileOp
 				switch op2.Op {
 				case "write", "writefile":
